@@ -1,4 +1,269 @@
+/-
+C15 — linkage, storage duration and symbol emission are correct in every configuration.
+
+Property theorems only (helper lemmas: Lemmas/Linkage{Lemmas,Parse,Scan,Tent,Emit}.lean).
+
+Model: Model/Linkage.lean (parse.c `function`/`global_variable`/`primary`/`mark_live`/`scan_globals`,
+codegen.c `emit_data`/`emit_text`), Gen/AddrFormsGen.lean (gen_addr's ND_VAR arm, regenerated from codegen.c).
+Spec: Spec/LinkageSpec.lean.
+
+An `Obj` list is the C list `globals` (newest first).  `Reach gs r f`: `f` is reached from `r` through the
+references `primary` recorded in `fn->refs`, resolved by `find_func` exactly as `mark_live` resolves them.
+All theorems are for every declaration sequence / every `Obj` list, i.e. every reference graph, cyclic or not.
+-/
 import ChibiVerif.Model.Linkage
 import ChibiVerif.Spec.LinkageSpec
+import ChibiVerif.Lemmas.LinkageLemmas
+import ChibiVerif.Lemmas.LinkageParse
+import ChibiVerif.Lemmas.LinkageScan
+import ChibiVerif.Lemmas.LinkageTent
+import ChibiVerif.Lemmas.LinkageEmit
+
 namespace ChibiVerif.Props.C15
+open ChibiVerif.Linkage
+open ChibiVerif.Spec.Linkage
+open ChibiVerif.Gen.AddrForms
+
+/-! ### liveness -/
+
+/-- **C15_live (all graphs).**  For every `Obj` list in which no `is_live` flag is set yet (the state `parse`
+    is in when it starts the root loop), the root loop terminates within its recursion bound and sets
+    `is_live` on exactly the functions reachable from a root: `mark_live` = reflexive-transitive closure of the
+    recorded references.  Cycles and self references are covered (no hypothesis on the graph). -/
+theorem C15_live (gs : List Obj) (h0 : NoneLive gs) :
+    ∃ gs', markRoots gs = some gs' ∧
+      ∀ f, liveFn gs' f = true ↔ ∃ r, r ∈ rootNames gs ∧ Reach gs r f := by
+  obtain ⟨gs', hm, _, hl⟩ := markRoots_spec gs h0
+  exact ⟨gs', hm, hl⟩
+
+/-- **C15_live (all declaration sequences).**  `parse` never gives up with `markLiveFuel`: whenever the
+    declarations are accepted, `parseUnit` returns, and in the returned list (after `scan_globals`)
+    `find_func(f)->is_live` holds exactly for the functions reachable from a root of the graph recorded
+    while parsing (`st.globals`). -/
+theorem C15_live_unit (ds : List Decl) (st : PState) (h : declAll {} ds = .ok st) :
+    ∃ gs, parseUnit ds = .ok gs ∧
+      ∀ f, liveFn gs f = true ↔ ∃ r, r ∈ rootNames st.globals ∧ Reach st.globals r f := by
+  have wf := wf_declAll h
+  obtain ⟨gs', hm, he, hl⟩ := markRoots_spec st.globals wf.noneLive
+  refine ⟨scanGlobals gs', ?_, fun f => ?_⟩
+  · simp [parseUnit, h, hm, bind, Except.bind, pure, Except.pure]
+  · have hnt : FnNotTent gs' := he.upd.fnNotTent wf.fnNotTent
+    have : liveFn (scanGlobals gs') f = liveFn gs' f := by
+      unfold liveFn; rw [findFunc_scanGlobals hnt]
+    rw [this]; exact hl f
+
+/-- non-vacuity: a cyclic static-inline call graph.  `static inline a(){b}`, `static inline b(){a}` (a cycle),
+    `static inline dead(){dead, a}` (self reference, never referenced from outside), `int (*p)(void) = a;`
+    at file scope.  Names: a=0 b=1 dead=2 p=3. -/
+def cyclicUnit : List Decl :=
+  [ .func 0 1 true false true none, .func 1 1 true false true none,
+    .func 0 1 true false true (some [.ref (.fn 1)]),
+    .func 1 1 true false true (some [.ref (.fn 0)]),
+    .func 2 4 true false true (some [.ref (.fn 2), .ref (.fn 0)]),
+    .obj 3 false false false ⟨8, 8, false, false⟩ (some [.ref (.fn 0)]) ]
+
+example : holdsOn (parseUnit cyclicUnit) (fun gs => liveFn gs 0 && liveFn gs 1 && !liveFn gs 2) = true := by
+  decide
+
+example : holdsOn (parseUnit cyclicUnit) (fun gs =>
+    (objectSymbols true gs).map (fun e => (e.sym, e.binding, e.kind)) ==
+      [(.named 3, .global, .data), (.named 1, .local, .text), (.named 0, .local, .text)]) = true := by
+  decide
+
+/-! ### closure of what is emitted -/
+
+/-- `parseUnit` succeeded: the three phases -/
+theorem parseUnit_ok {ds : List Decl} {gs : List Obj} (h : parseUnit ds = .ok gs) :
+    ∃ st gs', declAll {} ds = .ok st ∧ markRoots st.globals = some gs' ∧ gs = scanGlobals gs' := by
+  unfold parseUnit at h
+  simp only [bind, Except.bind] at h
+  split at h
+  · cases h
+  · rename_i st hst
+    split at h
+    · cases h
+    · rename_i gs' hm
+      simp only [pure, Except.pure, Except.ok.injEq] at h
+      exact ⟨st, gs', hst, hm, h.symm⟩
+
+/-- **C15_closed.**  In the list `parse` returns, for every declaration sequence:
+    1. every function with `is_root` (not `static inline`, or named in a file-scope initializer) is live;
+    2. everything a live function refers to (a name recorded in its body that `find_func` resolves) is live —
+       so every static function referenced by emitted code is emitted when it is defined;
+    3. a live function is reachable from a root, i.e. a `static inline` definition that nothing emitted
+       refers to is not live;
+    4. `emit_text` prints a function iff it is a live definition. -/
+theorem C15_closed (ds : List Decl) (gs : List Obj) (h : parseUnit ds = .ok gs) :
+    ∃ st, declAll {} ds = .ok st ∧
+    (∀ o f, o ∈ gs → o.isFunction = true → o.sym = .named f → o.isRoot = true → o.isLive = true) ∧
+    (∀ o f o2 g, o ∈ gs → o.isFunction = true → o.sym = .named f → o.isLive = true → g ∈ o.refs →
+        o2 ∈ gs → o2.isFunction = true → o2.sym = .named g → o2.isLive = true) ∧
+    (∀ o f, o ∈ gs → o.isFunction = true → o.sym = .named f → o.isLive = true →
+        ∃ r, r ∈ rootNames st.globals ∧ Reach st.globals r f) ∧
+    (∀ o, (emitTextFn o).isSome = (o.isFunction && o.isDefinition && o.isLive)) := by
+  obtain ⟨st, gs', hst, hm, rfl⟩ := parseUnit_ok h
+  have wf := wf_declAll hst
+  obtain ⟨gs'', hm', he, hl⟩ := markRoots_spec st.globals wf.noneLive
+  rw [hm] at hm'
+  cases hm'
+  have hnt : FnNotTent gs' := he.upd.fnNotTent wf.fnNotTent
+  have hnd : (fnNamesOf gs').Nodup := by rw [he.upd.fnNamesOf]; exact wf.nodup
+  -- a function object of the result is an object of gs' and its flag is `liveFn gs'`
+  have key : ∀ o f, o ∈ scanGlobals gs' → o.isFunction = true → o.sym = .named f →
+      o ∈ gs' ∧ o.isLive = liveFn gs' f ∧ o.refs = refsOf gs' f := by
+    intro o f ho hf hs
+    have ho' := (mem_scanGlobals_fn hnt hf).mp ho
+    exact ⟨ho', isLive_eq_liveFn hnd ho' hf hs, refs_eq_refsOf hnd ho' hf hs⟩
+  have isfn : ∀ o f, o ∈ gs' → o.isFunction = true → o.sym = .named f → isFn st.globals f = true := by
+    intro o f ho hf hs
+    rw [← he.isFn]
+    unfold isFn
+    rw [findFunc_of_mem hnd ho hf hs]; rfl
+  refine ⟨st, hst, ?_, ?_, ?_, ?_⟩
+  · intro o f ho hf hs hr
+    obtain ⟨ho', hlive, _⟩ := key o f ho hf hs
+    rw [hlive, hl]
+    -- the object is a root of the recorded graph
+    obtain ⟨o0, ho0, hh⟩ := he.upd.mem ho'
+    have hroot : f ∈ rootNames st.globals := by
+      rcases hh with rfl | rfl
+      · exact mem_rootNames ho0 hf hs hr
+      · exact mem_rootNames ho0 hf hs hr
+    exact ⟨f, hroot, Reach.refl (isfn o f ho' hf hs)⟩
+  · intro o f o2 g ho hf hs hlv hg ho2 hf2 hs2
+    obtain ⟨ho', hlive, hrefs⟩ := key o f ho hf hs
+    obtain ⟨ho2', hlive2, _⟩ := key o2 g ho2 hf2 hs2
+    rw [hlive2, hl]
+    rw [hlive, hl] at hlv
+    obtain ⟨r, hr, hreach⟩ := hlv
+    refine ⟨r, hr, Reach.step hreach ?_ (isfn o2 g ho2' hf2 hs2)⟩
+    rw [← he.refs, ← hrefs]; exact hg
+  · intro o f ho hf hs hlv
+    obtain ⟨_, hlive, _⟩ := key o f ho hf hs
+    rw [hlive, hl] at hlv
+    exact hlv
+  · intro o
+    unfold emitTextFn
+    cases o.isFunction <;> cases o.isDefinition <;> cases o.isLive <;> rfl
+
+/-- non-vacuity of C15_closed: in `cyclicUnit` the unreferenced `static inline dead` is not printed, the
+    cycle `a`/`b` reached from the file-scope initializer is -/
+example : holdsOn (parseUnit cyclicUnit) (fun gs => (emitText gs).map (·.sym) == [.named 1, .named 0]) = true := by
+  decide
+
+/-! ### tentative definitions -/
+
+/-- **C15_tentative.**  For every `Obj` list and every object name `s` with at most one non-tentative
+    definition (`NameOK`), after `scan_globals`:
+    * `emit_data` prints at most one definition of `s`, and exactly one if the list holds any definition of `s`;
+    * the printed entry comes from a declaration `a` of `s` in the list (possibly with the type of another
+      declaration: the composite type); it is the tentative one exactly when no non-tentative definition exists;
+    * it is `.comm` iff `-fcommon`, all definitions were tentative, and the object is not thread-local. -/
+theorem C15_tentative (fcommon : Bool) (gs : List Obj) (s : Sym) (ok : NameOK gs s) :
+    ((emitData fcommon (scanGlobals gs)).filter (fun e => e.sym == s)).length ≤ 1 ∧
+    (gs.any (dataDefOf s) = true →
+      ((emitData fcommon (scanGlobals gs)).filter (fun e => e.sym == s)).length = 1) ∧
+    (∀ e, e ∈ emitData fcommon (scanGlobals gs) → e.sym = s →
+      ∃ a t, a ∈ gs ∧ dataDefOf s a = true ∧ emitDataVar fcommon { a with ty := t } = some e ∧
+        (a.isTentative = true ↔ gs.any (realDefOf s) = false) ∧
+        (e.kind = .common ↔ (fcommon = true ∧ gs.any (realDefOf s) = false ∧ a.isTls = false))) := by
+  have hrel := scanGlobals_tyRel gs
+  have hcount : ((emitData fcommon (scanGlobals gs)).filter (fun e => e.sym == s)).length =
+      ((scanPure gs gs).filter (dataDefOf s)).length := by
+    rw [emitData_count, hrel.filter_length (tyBlind_dataDefOf s)]
+  refine ⟨?_, ?_, ?_⟩
+  · rw [hcount]; exact scanPure_count_le_one ok
+  · intro hex
+    rw [hcount]
+    have h1 := scanPure_count_le_one ok
+    have h2 := scanPure_count_pos ok hex
+    omega
+  · intro e he hs
+    unfold emitData at he
+    rw [List.mem_filterMap] at he
+    obtain ⟨b, hb, hbe⟩ := he
+    obtain ⟨a, ha, t, rfl⟩ := hrel.mem hb
+    have hsym : a.sym = s := by
+      have := emitDataVar_sym hbe
+      rw [hs] at this; exact this.symm
+    have hsome : (!a.isFunction && a.isDefinition) = true := by
+      have := emitDataVar_isSome fcommon { a with ty := t }
+      rw [hbe] at this
+      exact this.symm
+    simp only [Bool.and_eq_true, Bool.not_eq_true'] at hsome
+    have hag := scanPure_sub gs gs a ha
+    have htent := scanPure_kept_tent ha hsym hsome.2
+    refine ⟨a, t, hag, by simp [dataDefOf, hsome.1, hsome.2, hsym], hbe, htent, ?_⟩
+    -- the kind of the entry, read off emit_data
+    unfold emitDataVar at hbe
+    simp only [hsome.1, hsome.2, Bool.not_true, Bool.or_false, Bool.false_eq_true, if_false] at hbe
+    cases hfc : fcommon <;> cases hat : a.isTentative <;> cases htl : a.isTls <;>
+      simp only [hfc, hat, htl, Bool.not_true, Bool.not_false, Bool.and_true,
+        Bool.and_false, Bool.false_eq_true, if_false, if_true] at hbe
+    all_goals (first | (split at hbe <;> cases hbe <;> simp_all) | (cases hbe <;> simp_all))
+
+/-- non-vacuity: `int x; int x; static int s; static int s; int y = 3; int y; _Thread_local int t; _Thread_local int t;`
+    (x=0 s=1 y=2 t=3): one definition of each; `.comm` for x and s under -fcommon, .data for y, .tbss for t -/
+def tentativeUnit : List Decl :=
+  [ .obj 0 false false false ⟨4, 4, false, false⟩ none, .obj 0 false false false ⟨4, 4, false, false⟩ none,
+    .obj 1 true false false ⟨4, 4, false, false⟩ none, .obj 1 true false false ⟨4, 4, false, false⟩ none,
+    .obj 2 false false false ⟨4, 4, false, false⟩ (some []), .obj 2 false false false ⟨4, 4, false, false⟩ none,
+    .obj 3 false false true ⟨4, 4, false, false⟩ none, .obj 3 false false true ⟨4, 4, false, false⟩ none ]
+
+example : holdsOn (parseUnit tentativeUnit) (fun gs =>
+    (emit true gs).map (fun e => (e.sym, e.binding, e.kind)) ==
+      [(.named 3, .global, .tbss), (.named 2, .global, .data), (.named 1, .local, .common), (.named 0, .global, .common)] &&
+    (emit false gs).map (fun e => (e.sym, e.kind)) ==
+      [(.named 3, .tbss), (.named 2, .data), (.named 1, .bss), (.named 0, .bss)]) = true := by
+  decide
+
+/-- the hypothesis `NameOK` holds for each of the four names in the list `parse` builds for `tentativeUnit` -/
+example : holdsOn (declAll {} tentativeUnit) (fun st =>
+    [0, 1, 2, 3].all (fun n =>
+      st.globals.all (fun o => !(o.sym == .named n) || !o.isFunction) &&
+      decide ((st.globals.filter (realDefOf (.named n))).length ≤ 1) &&
+      st.globals.all (fun o => !o.isTentative || o.isDefinition))) = true := by
+  decide
+
+/-! ### address forms -/
+
+/-- **C15_addr_table (full statement).**  For every context `gen_addr` can be in, the chosen address form is
+    valid for that kind of entity in that code model.  It fails in one cell (C15-extern-tls-local-exec,
+    Findings/C15.lean), so the proved theorem is `C15_addr_table_partial`. -/
+def C15_addr_table_Statement : Prop :=
+  ∀ c : VarCtx, ctxConsistent c = true → ∃ f, addrForm c = some f ∧ validForm (refCtxOf c) f = true
+
+/-- **C15_addr_table (partial).**  Whole table, by evaluation: every consistent context outside the region
+    `externTlsRegion` (non-PIC reference to a thread-local object the unit does not define).
+    What is missing for the full statement: that one cell; see `Findings.C15.C15_finding_extern_tls`. -/
+theorem C15_addr_table_partial :
+    ∀ c : VarCtx, ctxConsistent c = true → externTlsRegion c = false →
+      ∃ f, addrForm c = some f ∧ validForm (refCtxOf c) f = true := by
+  intro ⟨a, b, c, d, e, f⟩
+  cases a <;> cases b <;> cases c <;> cases d <;> cases e <;> cases f <;> decide
+
+/-- non-vacuity: a context inside the theorem's scope (PIC reference to an undefined thread-local object:
+    general dynamic) -/
+example : ctxConsistent ⟨false, false, true, true, false, false⟩ = true ∧
+    externTlsRegion ⟨false, false, true, true, false, false⟩ = false ∧
+    addrForm ⟨false, false, true, true, false, false⟩ = some .tlsGD := by decide
+
+/-! ### the symbol table -/
+
+/-- **C15_symbols (full statement).**  For every valid declaration sequence and both `-fcommon` settings the
+    ELF symbol table of the model's output has exactly the entries of `Spec.symbols`.
+    Open: it is false in the known-finding regions (Findings/C15.lean has kernel-checked witnesses for each);
+    outside them it is validated on every run (model = chibicc, Spec = gcc 12 on exhaustive short declaration
+    sequences and seeded graphs) but not proved: the missing piece is the simulation between the flag-mutating
+    walk of `declAll` and the all-declarations-at-once reading of the Spec (`fnClass`, `objKind`, `neededList`). -/
+def C15_symbols_Statement : Prop :=
+  ∀ (fcommon : Bool) (ds : List Decl), valid ds = true →
+    ∃ gs, parseUnit ds = .ok gs ∧
+      (∀ e, e ∈ objectSymbols fcommon gs ↔ e ∈ symbols fcommon ds)
+
+/-- the decidable region in which `C15_symbols_Statement` is claimed -/
+def InScope (ds : List Decl) : Bool :=
+  valid ds && !flagsFrozenRegion ds && !deadStaticLocalRegion ds && !compositeSizeRegion ds &&
+  !externInitAfterStaticRegion ds
+
 end ChibiVerif.Props.C15
